@@ -55,6 +55,10 @@ def main(argv=None):
     except dump.DumpError as e:
         print('INCONCLUSIVE: ' + str(e)[:2000]); return 2
     for j in jobs: j['mir_cache'] = blobs
+    try:
+        replay.build_driver()
+    except replay.ReplayError as e:
+        print('INCONCLUSIVE: ' + str(e)[:2000]); return 2
     results = []
     with mp.Pool(min(args.jobs, max(1, len(jobs)))) as pool:
         for r in pool.imap_unordered(_worker, jobs):
@@ -88,7 +92,7 @@ def finish(pid, args, seed, jobs, results, t0):
         r, v = items[0]
         kid = v.get('known')
         listed = kid and any(k['id'] == kid and k['property'] == pid for k in known.get('known', []))
-        rep = replay.confirm(pid, v) if replayed < 6 else {'status': 'skipped'}
+        rep = replay.confirm(pid, v, jobs[0]['mir_cache']) if replayed < 6 else {'status': 'skipped'}
         replayed += 1
         v['replay'] = rep
         if rep['status'] == 'confirmed':
